@@ -296,6 +296,71 @@ def r5(ctx, prog):
            'the ready queue is swapped into a local before routines run (newly readied routines wait for the next pass)', where=sc.loc(sc.body))
 
 
+def r9(ctx, prog):
+    ctx.rule('C18.R9', 'A10 resource predicate of the semaphore by finite folding: a permit is taken (--count_) only where "count_ >= 1" is a must-fact — established by a '
+             'branch edge whose condition, folded over count_ = 0..3, is taken only for values >= 1, and destroyed by every suspension point and every write of count_; '
+             'and the wake-up a cancelled waiter passes on is conditioned on exactly that predicate', floor=2)
+    cls = CO + 'Semaphore'
+    f = prog.fn1(cls + '::acquire')
+    fld = lambda sx: sx['k'] == 'MemberExpr' and sx.get('n') == 'count_'
+
+    def edge_truth_set(cond, k):
+        """values of count_ in 0..3 for which edge k of cond is taken; None if the condition is not a pure test of count_"""
+        if not any(fld(f.stmts[x]) for x in f.walk(cond)):
+            return None
+        out = set()
+        for v in range(0, 4):
+            r = q.eval_expr(f, cond, lambda sx, v=v: v if fld(sx) else None)
+            if r is None:
+                return None
+            if bool(r) == (k == 0):
+                out.add(v)
+        return out
+
+    def gen(b, k):
+        cond = (b if hasattr(b, 'cond') else f.cfg.blocks[b]).cond
+        if cond is None:
+            return False
+        ts = edge_truth_set(cond, k)
+        return ts is not None and bool(ts) and all(v >= 1 for v in ts)
+
+    def kill(pt, st):
+        if st['k'] in q.CALL_KINDS and st.get('cls') == SCH and st.get('fn') in ('wait', 'yield', 'join'):
+            return True
+        if st['k'] in ('UnaryOperator', 'BinaryOperator', 'CompoundAssignOperator') and st.get('op') in ('++', '--', '=', '+=', '-=') and \
+                (f.field_of(st['ch'][0]) or '').endswith('::count_'):
+            return True
+        return False
+    fact = q.must_fact(f, gen, kill)
+    decs = [st for st in f.stmts if st and st['k'] == 'UnaryOperator' and st.get('op') == '--' and (f.field_of(st['ch'][0]) or '').endswith('::count_')]
+    if not decs:
+        raise AnalysisBroken('Semaphore::acquire: no decrement of count_')
+    for d in decs:
+        ok = bool(fact.get(q.pt_or_term(f, d)))
+        ctx.ob('C18.R9', '%s|take-only-available' % f.name, ok, 'the permit is taken only where count_ >= 1 is known' if ok else
+               'count_ is decremented at a point where "count_ >= 1" is not established on every path (the tests in front of it let 0 through, or a suspension lies in '
+               'between): a permit is taken that does not exist, and count_ goes negative', where=f.loc(d['i']))
+    # the pass-on of a wake-up by a cancelled waiter
+    wk = [c for c in f.calls() if c.get('fn') == 'wakeupOne']
+    n = 0
+    for c in wk:
+        waits = q.pts(f, sch_calls(f, 'wait'))
+        for cond, k, b in f.cfg.controlling_branches(q.pt(f, c)):
+            ts = edge_truth_set(cond, k)
+            if ts is None:
+                continue
+            cp_ = f.cfg.point_of(cond)
+            if cp_ is None or not any(f.cfg.exists_path(w, cp_) for w in waits) or f.cfg.exists_path(cp_, q.pt(f, c), avoid=()) is False:
+                continue        # a test made before the suspension says nothing about count_ now
+            if any(f.cfg.dominates(cp_, w) for w in waits):
+                continue
+            n += 1
+            ok = ts == {1, 2, 3}
+            ctx.ob('C18.R9', '%s|pass-on-iff-available' % f.name, ok, 'a cancelled waiter passes its wake-up on exactly when a permit is available' if ok else
+                   'the wake-up is passed on for count_ in %s instead of exactly when count_ >= 1: with a permit available and waiters queued nobody is woken' % sorted(ts),
+                   where=f.loc(c['i']))
+
+
 def run(ctx):
     prog = extract('ALL' if ctx.tier == 'thorough' else ['coroutine/scheduler.cpp'], extra_units=[instantiate_unit()])
     ctx.guard(r1, ctx, prog)
@@ -306,4 +371,5 @@ def run(ctx):
     ctx.guard(r6, ctx, prog)
     ctx.guard(r7, ctx, prog)
     ctx.guard(r8, ctx, prog)
+    ctx.guard(r9, ctx, prog)
     return prog
